@@ -365,7 +365,9 @@ func valueFor(r *rng, in, out colDesc) string {
 			// valid but non-canonical base64, base64 of base64, the float32 whose shortest text double-rounds
 			`"QR=="`, `"WVdKalpBPT0="`, `"YWJjZA=="`, `"/UOuFQ=="`, longBase64,
 			// canonical base64 texts that look like something else (a hex literal, a number, a keyword, a date), and the empty payload
-			`"0xC0FFEE"`, `"0xAB"`, `"0XFF"`, `"1234"`, `"12345678"`, `"true"`, `"null"`, `"TRUE"`, `"Infinity"`, `"2021"`, `"20210924"`, `"abcd"`, `"1e10"`, `"+Inf"`, `"0b11"`, `""`})
+			`"0xC0FFEE"`, `"0xAB"`, `"0XFF"`, `"1234"`, `"12345678"`, `"true"`, `"null"`, `"TRUE"`, `"Infinity"`, `"2021"`, `"20210924"`, `"abcd"`, `"1e10"`, `"+Inf"`, `"0b11"`, `""`,
+			// base64 broken over lines (the decoder skips CR and LF): the payload arrives whatever else the text could be taken for
+			`"0xC0\nFFEE"`, `"0xAB\r\n"`, `"AQAA\r\nAA=="`, `"1234\n5678"`, `"dHJ1\nZQ=="`, `"\nAQ=="`, `"MjAyMS0w\nOS0yNA=="`})
 	case "date":
 		return pick(r, []string{`"2021-09-24"`, `"0001-01-01"`, `"9999-12-31"`, `1632518460`, `"2021-09-24T21:21:00Z"`, `null`})
 	case "datetime":
